@@ -1,8 +1,7 @@
 (* C25 -- csr_matmat, part 4: the two passes under the SciPy protocol compute the dense
-   matrix product (under the guard  B.col_ <= A.col_ ).
+   matrix product, in canonical format.
    Files: CsrMatmat1.v (generic lemmas, algebra), CsrMatmat2.v (pass 1), CsrMatmat3.v (pass 2),
    this file (the protocol [matmat]). *)
-From SE Require Export C25.CsrProofs.
 From SE Require Export C25.CsrMatmat3.
 Local Open Scope N_scope.
 Local Open Scope res_scope.
@@ -27,6 +26,50 @@ Proof.
     + destruct (N.eqb_spec k a); [congruence|]. cbn [orb]. exact IH.
 Qed.
 
+(* ---------- rows up to a permutation ---------- *)
+Lemma resizeN_id {X} (l : list X) n d : n = lenN l -> resizeN l n d = l.
+Proof.
+  intros ->. unfold resizeN, lenN. rewrite Nat2N.id, firstn_all, Nat.sub_diag.
+  cbn [repeat]. apply app_nil_r.
+Qed.
+
+Lemma srt_le_lt (l : list (N * E)) : srt N.le l -> NoDup (map fst l) -> srt N.lt l.
+Proof.
+  induction l as [|a l IH]; cbn [srt map]; [auto|].
+  intros (H1 & H2) Hn. inversion Hn as [|? ? Hni Hn']; subst.
+  split; [|apply IH; assumption].
+  intros b Hb. specialize (H1 b Hb).
+  assert (fst a <> fst b) by (intros He; apply Hni; rewrite He; apply in_map; assumption).
+  lia.
+Qed.
+
+Lemma lookup_perm (l l' : list (N * E)) k :
+  Permutation l l' -> NoDup (map fst l) -> lookup Ops k l = lookup Ops k l'.
+Proof.
+  induction 1 as [|x l l' Hp IH|x y l|l l' l'' Hp1 IH1 Hp2 IH2]; intros Hn.
+  - reflexivity.
+  - rewrite !lookup_cons. cbn [map] in Hn. inversion Hn; subst.
+    destruct (fst x =? k); [reflexivity|]. apply IH; assumption.
+  - rewrite !lookup_cons. cbn [map] in Hn. inversion Hn as [|? ? Hni _]; subst.
+    destruct (N.eqb_spec (fst y) k) as [Hy|]; destruct (N.eqb_spec (fst x) k) as [Hx|]; try reflexivity.
+    exfalso. apply Hni. left. congruence.
+  - rewrite IH1 by assumption. apply IH2.
+    apply (Permutation_NoDup (Permutation_map fst Hp1)). assumption.
+Qed.
+
+Lemma wf_locate (m : csr E) k : @wf E m -> k < lenN (cj m) ->
+  exists r, r < crow m /\ pN m r <= k /\ k < pN m (r + 1).
+Proof.
+  intros (_ & H0 & Hm & Hn & _) Hk. rewrite <- Hn in Hk.
+  assert (H : forall n, n <= crow m -> k < pN m n -> exists r, r < n /\ pN m r <= k /\ k < pN m (r + 1)).
+  { induction n using N.peano_ind; intros Hle Hlt; [lia|].
+    replace (N.succ n) with (n + 1) in * by lia.
+    destruct (N.lt_ge_cases k (pN m n)) as [Hl|Hg].
+    - destruct (IHn ltac:(lia) Hl) as (r & R1 & R2 & R3). exists r. repeat split; [lia|assumption|assumption].
+    - exists n. repeat split; [lia|assumption|assumption]. }
+  apply (H (crow m)); [lia|assumption].
+Qed.
+
 Section Fixed.
 Variables A B : csr E.
 Hypothesis Hsr : semiring Ops.
@@ -34,7 +77,6 @@ Hypothesis Hzt : zero_test_sound Ops.
 Hypothesis HA : @Inv E A.
 Hypothesis HB : @Inv E B.
 Hypothesis Hd : ccol A = crow B.
-Hypothesis Hg : ccol B <= ccol A.
 Hypothesis Hsz : crow A * ccol B < 2 ^ 31.
 Notation items := (items Ops A B).
 Notation em := (em Ops A B).
@@ -55,78 +97,77 @@ Qed.
 Lemma em_nodup i : NoDup (map fst (em i)).
 Proof. unfold CsrMatmat3.em. rewrite em_of_fst. apply NoDup_filter, disc_nodup. Qed.
 
-Theorem matmat_guarded_aux :
-  exists C, matmat Ops A B = Ok C /\ crow C = crow A /\ ccol C = ccol B /\ @wf E C /\ @cols_ok E C /\
-    (forall i, i < crow A -> row_of Ops C i = em i).
+Lemma em_col_lt i x : i < crow A -> In x (em i) -> fst x < ccol B.
+Proof.
+  intros Hi Hx. unfold CsrMatmat3.em in Hx. apply em_of_in in Hx. rewrite disc_in in Hx.
+  apply (items_col_lt Ops A B i); assumption.
+Qed.
+
+Theorem matmat_aux :
+  exists C, matmat Ops A B = Ok C /\ crow C = crow A /\ ccol C = ccol B /\ @wf E C /\
+    (forall i, i < crow A -> Permutation (row_of Ops C i) (em i) /\ srt N.le (row_of Ops C i)).
 Proof.
   unfold matmat.
   pose proof (rowA_small A HA) as Hrow.
   assert (Hl0 : lenN (cp (mk_zero (E:=E) (crow A) (ccol B))) = crow A + 1).
   { unfold mk_zero. cbn [cp]. rewrite lenN_repeat, uadd_small by lia. lia. }
-  destruct (pass1_spec Ops A B HA HB Hd Hg Hsz _ Hl0) as (p1 & Hrun1 & Hl1 & Hp1).
+  destruct (pass1_spec Ops A B HA HB Hd Hsz _ Hl0) as (p1 & Hrun1 & Hl1 & Hp1).
   rewrite Hrun1. cbn [bind cp cj cx crow ccol mk_zero].
   rewrite (getN_ok p1 (crow A) 0) by lia. cbn [bind].
   rewrite (Hp1 (crow A)) by lia.
   match goal with |- context [matmat_pass2 Ops A B ?C1] =>
-    destruct (pass2_spec Ops Hsr A B HA HB Hd Hg Hsz C1)
-      as (p2 & oj & ox & Hrun2 & Hl2 & Hlj & Hlx & Hp2 & Hcols & Hrows) end.
+    destruct (pass2_spec Ops Hsr A B HA HB Hd Hsz C1)
+      as (p2 & j2 & x2 & Hrun2 & Hl2 & Lj & Lx & Hp2 & Hrows) end.
   { cbn [cp]. exact Hl1. }
   { cbn [cj]. apply lenN_resizeN. }
   { cbn [cx]. apply lenN_resizeN. }
   rewrite Hrun2. cbn [bind cp cj cx crow ccol].
   rewrite (getN_ok p2 (crow A) 0) by lia. cbn [bind].
   rewrite (Hp2 (crow A)) by lia.
-  set (n2 := psum2 (crow A)).
-  assert (Hn2 : n2 <= psum (crow A)) by (apply psum2_le; assumption).
-  assert (HpC : forall r, r <= crow A ->
-            pN (Build_csr p2 (resizeN oj n2 0) (resizeN ox n2 zero) (crow A) (ccol B)) r = psum2 r).
-  { intros r Hr. unfold pN. cbn [cp]. apply Hp2. exact Hr. }
-  eexists. split; [reflexivity|]. split; [reflexivity|]. split; [reflexivity|].
-  split; [|split].
+  rewrite (resizeN_id j2) by (symmetry; exact Lj).
+  rewrite (resizeN_id x2) by (symmetry; exact Lx).
+  eexists. split; [reflexivity|]. split; [reflexivity|]. split; [reflexivity|]. split.
   - (* wf *)
-    unfold wf. cbn [cp cj cx crow ccol]. split; [exact Hl2|].
-    split; [rewrite HpC by lia; reflexivity|].
+    unfold wf, pN. cbn [cp cj cx crow ccol]. split; [exact Hl2|].
+    split; [rewrite Hp2 by lia; reflexivity|].
     split; [|split].
-    + intros i Hi. rewrite !HpC by lia. rewrite psum2_succ. lia.
-    + rewrite HpC by lia. rewrite lenN_resizeN. reflexivity.
-    + rewrite !lenN_resizeN. reflexivity.
-  - (* cols_ok *)
-    unfold cols_ok. cbn [cj ccol]. rewrite lenN_resizeN. intros k Hk.
-    rewrite nthN_resizeN by lia. apply Hcols. exact Hk.
+    + intros i Hi. rewrite !Hp2 by lia. rewrite psum2_succ. lia.
+    + rewrite Hp2 by lia. symmetry. exact Lj.
+    + lia.
   - (* rows *)
-    intros i Hi. unfold row_of. rewrite !HpC by lia. cbn [cj cx].
-    rewrite psum2_succ. replace (psum2 i + cnt2 i - psum2 i) with (cnt2 i) by lia.
-    unfold CsrMatmat3.cnt2. rewrite lenN_nat.
-    apply (map_Nseq_eq _ _ _ (0, zero)).
-    intros t Ht.
-    assert (Hlt : psum2 i + N.of_nat t < n2).
-    { pose proof (psum2_succ Ops A B i). pose proof (psum2_mono Ops A B (i + 1) (crow A) ltac:(lia)).
-      unfold CsrMatmat3.cnt2, lenN, n2 in *. lia. }
-    rewrite !nthN_resizeN by lia.
-    destruct (Hrows i t Hi Ht) as (-> & ->). symmetry. apply surjective_pairing.
+    intros i Hi. rewrite row_of_seg. unfold pN. cbn [cp cj cx]. rewrite !Hp2 by lia.
+    apply Hrows. exact Hi.
 Qed.
 
 End Fixed.
 
-Theorem matmat_guarded (A B : csr E) :
+Theorem matmat_spec (A B : csr E) :
   semiring Ops -> zero_test_sound Ops ->
-  @Inv E A -> @Inv E B -> ccol A = crow B ->
-  ccol B <= ccol A ->                 (* the guard: the temporaries mask/next/sums have A.col_ entries but are indexed by columns of B *)
-  crow A * ccol B < 2 ^ 31 ->
-  exists C, matmat Ops A B = Ok C /\ crow C = crow A /\ ccol C = ccol B /\ @wf E C /\ @cols_ok E C /\
-    (forall i, i < crow A -> NoDup (map fst (row_of Ops C i))) /\
+  @Inv E A -> @Inv E B -> ccol A = crow B -> crow A * ccol B < 2 ^ 31 ->
+  exists C, matmat Ops A B = Ok C /\ crow C = crow A /\ ccol C = ccol B /\ @Inv E C /\
     forall i k, i < crow A -> k < ccol B ->
       entry Ops C i k = dsum Ops (ccol A) (fun j => emul Ops (entry Ops A i j) (entry Ops B j k)).
 Proof.
-  intros Hsr Hzt HA HB Hd Hg Hsz.
-  destruct (matmat_guarded_aux A B Hsr HA HB Hd Hg Hsz) as (C & Hrun & Hr & Hc & Hwf & Hcols & Hrows).
-  exists C. split; [exact Hrun|]. split; [exact Hr|]. split; [exact Hc|]. split; [exact Hwf|].
-  split; [exact Hcols|]. split.
-  - intros i Hi. rewrite (Hrows i Hi). apply em_nodup.
-  - intros i k Hi Hk. unfold entry at 1. rewrite (Hrows i Hi).
+  intros Hsr Hzt HA HB Hd Hsz.
+  destruct (matmat_aux A B Hsr HA HB Hd Hsz) as (C & Hrun & Hr & Hc & Hwf & Hrows).
+  assert (Hnd : forall i, i < crow A -> NoDup (map fst (row_of Ops C i))).
+  { intros i Hi. destruct (Hrows i Hi) as (P & _).
+    apply (Permutation_NoDup (Permutation_sym (Permutation_map fst P))). apply em_nodup. }
+  exists C. split; [exact Hrun|]. split; [exact Hr|]. split; [exact Hc|]. split.
+  - split; [split; [exact Hwf|]|split].
+    + intros i Hi. rewrite Hr in Hi. apply (row_sorted_srt Ops).
+      apply srt_le_lt; [apply Hrows; assumption|apply Hnd; assumption].
+    + intros k Hk. destruct (wf_locate C k Hwf Hk) as (r & R1 & R2 & R3). rewrite Hr in R1.
+      destruct (Hrows r R1) as (P & _). rewrite Hc.
+      apply (em_col_lt A B HA HB Hd r (nthN (cj C) k 0, nthN (cx C) k zero) R1).
+      apply (Permutation_in _ P). rewrite row_of_seg. apply in_segN. exists k. auto.
+    + unfold dims_ok. rewrite Hr, Hc. split; [apply (rowA_small A HA)|].
+      split; [apply (colB_small B HB)|exact Hsz].
+  - intros i k Hi Hk. unfold entry at 1. destruct (Hrows i Hi) as (P & _).
+    rewrite (lookup_perm _ _ k P (Hnd i Hi)).
     rewrite (lookup_em A B Hzt). apply csum_items; assumption.
 Qed.
 
 End Matmat.
 
-Print Assumptions matmat_guarded.
+Print Assumptions matmat_spec.
